@@ -270,10 +270,12 @@ pub fn run(run: &mut Run) {
     }
     run.assumptions.push("tolerances of DESIGN §4.2/§4.3: rounding error of any reasonable implementation in the sample type plus the measured accuracy envelope of statrs' inverse t CDF; errors below that are invisible".into());
     run.assumptions.push("around n = 100 000 (dof within 2 of 100 000) both the t and the normal branch are accepted ('about 100 000')".into());
+    crate::props::history::add(run, "C01", &[crate::props::history::ARITH], 3_000, 200_000);
 }
 
 pub fn replay(sub: &str, v: &Value, obs: &mut Obs) -> Option<PResult> {
     Some(match sub {
+        "history" => crate::props::history::case(&de(v), obs),
         "random" | "large" => case(&de(v), obs),
         _ => return None,
     })
